@@ -70,6 +70,16 @@ CLAIMED = {
         technique="bounded stand-in for contract-based verification: deal run-time contracts on the real CLI functions over an enumerated input set (labelled bounded, not proved)",
         design_ref="DESIGN.md section 2, C49",
     ),
+    "C41": dict(
+        category="exploration",
+        text=("BOUNDED stand-in (never counted as proved): deal run-time contracts on the real converters. Post-conditions are the settings listed in the property statement, phrased over the old keys: "
+              "runcards.Legacy upgrades 80 flat card pairs (PTO 0-3, QED 0-2, POLE / MSBAR, nf0 given / None, mugrid / Q2grid / mu2grid, ev_op_max_order int / pair, four method names; covering sample) "
+              "to cards with order = (PTO+1, QED), the same couplings and reference, masses and scheme, matching ratios, xif, x-grid, evolution scales with the default flavour number, initial point and "
+              "configuration values; EKO.read of archives laid out as 0.13 / 0.14 wrote them yields cards and an x-grid with the stored settings. One defect repaired by a fix commit (ev_op_max_order given as a pair: KeyError)."),
+        note="Bounded: finite input set stated in bounded/C41_native.py. The old archive layouts are inferred from the keys the converters read (no archive written by 0.13 / 0.14 is available offline); operators inside legacy archives and the reported matching order are not covered.",
+        technique="bounded stand-in for contract-based verification: deal run-time contracts on the real converters over an enumerated input set (labelled bounded, not proved)",
+        design_ref="DESIGN.md section 2, C41",
+    ),
     "C40": dict(
         category="exploration",
         text=("BOUNDED stand-in, never counted as proved: YAML and the dataclass / typing reflection of eko.io.dictlike are outside the symbolic engine. `deal` run-time contracts on the real "
@@ -482,7 +492,6 @@ NA = {
     "C12": "convergence rate of iterated/perturbative discretisations towards a solution without closed form: no finite pre/postcondition decides it",
     "C28": "Python-vs-Rust equivalence: no Rust verifier installed; would be translation validation (different family)",
     "C35": "accuracy of numerical contour integration (scipy.integrate.quad) is outside the verifier's reach",
-    "C41": "the only specification of 'equivalent legacy upgrade' is a restatement of the converter; no fixtures in this snapshot",
     "C45": "needs LHAPDF tooling and a full solve; the reachable pure sliver cannot carry the statement",
     "C47": "two OS processes with different hash seeds: whole-process property",
     "C48": "numba compiler output vs Python definition: compiler semantics, not function contracts",
